@@ -48,14 +48,18 @@ func c04(r *core.Run) {
 	r.Explanation = "Static rules over storage.MsgBuyStorage and the pay-once branch of storage.MsgPostFile: every bank call of the handler is classified by the provenance of its counterparty into {debit, new gauge, POL account, referrer, fee collector} (closed set); the debit depends on the priced quantities of the message, the price parameter and the price feed; every cut depends on everything the debit depends on (same base); the gauge is funded with the very value it records; the POL cut depends on Param(PolRatio) and not on Param(ReferralCommission), the referrer's and the fee collector's cut depend on Param(ReferralCommission) and not on Param(PolRatio); all bank errors propagate to a failing return. Exact prices and 'within one base unit' are numeric and not decided."
 	r.Assumptions = []string{T1, T3, T6}
 	r.NotDecided = []string{"exact price arithmetic", "'within one base unit'", "Σ credits ≤ debit (follows numerically from ratios ≤ 100%)"}
+	r.Rule("C04/R10", "the ratio and price parameters used are the governance-set ones: the storage module's GetParams returns the stored parameter set unmodified (no default standing in for a stored 0) and each parameter key is bound to the Params field confirmed for it")
 	r.Rule("C04/R1", "debit = price: the account->module amount depends on the message's size/duration fields, Param(PricePerTbPerMonth) and the price feed; payer ⊵ signer; every cut depends on every source the debit depends on")
 	r.Rule("C04/R2", "gauge funded with exactly what it records: the value passed to the gauge constructor and the value sent to that gauge's account are the same SSA value")
 	r.Rule("C04/R3", "each recipient gets its own percentage: POL amount ⊵ Param(PolRatio) ∧ ⋫ Param(ReferralCommission); referrer and fee-collector amounts ⊵ Param(ReferralCommission) ∧ ⋫ Param(PolRatio)")
 	r.Rule("C04/R4", "closed recipient set: every bank call of the unit is one of {debit from signer, new gauge, POL account, referrer named by msg.Referral, fee collector}")
 	r.Rule("C04/R5", "failure debits nothing: every bank error propagates to a failing return")
+	r.Rule("C04/R9", "every cut of the payment is converted from decimals to whole units by truncation only: the credits cannot add up to more than the debit")
 	r.Rule("C04/R8", "every cut is computed from the payment as finally debited: no re-assignment of the payment lies on a path between a cut's computation and its transfer")
 	r.Rule("C04/R7", "success implies the money moved: every committing return of a plan purchase has debited the payer, created the gauge and written the plan record")
 	r.Rule("C04/R6", "referral gate: the referrer payout is on committing paths only behind a successful resolution of msg.Referral and behind Eq(resolved referral, signer)=false (directly or through a boolean flag set only there)")
+	paramsGetterFaithful(r, "C04/R10", "storage")
+	paramPairsConsistent(r, "C04/R10", "storage")
 	hs, err := p.Handlers()
 	if err != nil {
 		r.Undecided("C04/R1", "handlers", "", err.Error())
@@ -156,16 +160,62 @@ func c04(r *core.Run) {
 						}
 					}
 				})
+				funded := s.bo.Args[2]
+				if ctor == nil && s.bo.Fn != h.Fn {
+					// the transfer lives in a helper: find the constructor next to the helper's call and express the
+					// funded amount in the caller's values
+					for _, caller := range p.Summary(h.Fn).Funcs {
+						allInstrs(caller, func(in ssa.Instruction) {
+							hop, ok := in.(ssa.CallInstruction)
+							if !ok || ctor != nil {
+								return
+							}
+							isHop := false
+							for _, cal := range p.Callees(hop) {
+								if cal == s.bo.Fn {
+									isHop = true
+								}
+							}
+							if !isHop {
+								return
+							}
+							allInstrs(caller, func(in2 ssa.Instruction) {
+								if c, ok := in2.(*ssa.Call); ok {
+									for _, cal := range p.Callees(c) {
+										for _, o := range p.StoreOps(cal) {
+											if o.Kind == "Set" && o.Module+"/"+o.Prefix == "storage/PaymentGauge/value/" {
+												ctor = c
+											}
+										}
+									}
+								}
+							})
+							if prm, isParam := funded.(*ssa.Parameter); isParam {
+								hc := hop.Common()
+								var actuals []ssa.Value
+								if hc.IsInvoke() {
+									actuals = append(actuals, hc.Value)
+								}
+								actuals = append(actuals, hc.Args...)
+								for i, q := range s.bo.Fn.Params {
+									if q == prm && i < len(actuals) {
+										funded = actuals[i]
+									}
+								}
+							}
+						})
+					}
+				}
 				if ctor == nil {
 					r.Violation("C04/R2", sp.key+":gauge-recorded", p.InstrPos(s.bo.Instr), "coins are sent to a gauge account but no gauge record is created in the same unit")
 				} else {
 					same := false
 					for _, a := range dataArgs(ctor) {
-						if core.SameValue(a, s.bo.Args[2]) {
+						if core.SameValue(a, funded) {
 							same = true
 						}
 					}
-					r.Check(same, "C04/R2", sp.key+":gauge-funded=recorded", p.InstrPos(s.bo.Instr), "gauge constructor and funding use the same value", "the gauge is funded with a different amount than it records: it will over- or under-release")
+					r.Check(same, "C04/R2", sp.key+":gauge-funded=recorded", p.InstrPos(s.bo.Instr), "gauge constructor and funding use the same value", "the gauge is funded with a different value than the one handed to its constructor (e.g. the returned record's Coins, which after a merge is the total of several deposits): the account holds more or less than the record says and the gauge over- or under-releases")
 					// the record stores exactly that argument as Coins
 					callee := p.Callees(ctor)[0]
 					for _, o := range p.StoreOps(callee) {
@@ -236,6 +286,7 @@ func c04(r *core.Run) {
 						}
 					}
 				}
+				roundsDown(r, "C04/R9", fmt.Sprintf("%s:cut-rounds-down:%s", sp.key, sx.class), sx.bo.Args[len(sx.bo.Args)-1], p.InstrPos(sx.bo.Instr))
 				r.Check(stale == "", "C04/R8", fmt.Sprintf("%s:cut-from-current-payment:%s", sp.key, sx.class), p.InstrPos(sx.bo.Instr), "the cut is computed after the last assignment of the payment on every path", "the "+sx.class+" amount is computed from the payment at "+stale+": on that path the transfer uses a share of an outdated amount, so credits no longer add up to the debit")
 			}
 		}
